@@ -178,7 +178,76 @@ META["C14"] = {"files": ["cif.c"], "functions": ["cif_walk", "walk_container", "
                "assumptions": ["SKIP_SIBLINGS answered by an end callback is outside the claim (undocumented)", "frames nest one level"],
                "outside": ["that the handles describe the stored content (C04/C06/C07)", "trees larger than the bound"]}
 
-REG = {"C20": c20, "C10": c10, "C18": c18, "C09": c09, "C08": c08, "C14": c14}
+
+# ------------------------------------------------------------------------------------------ C19
+VAL_REC = ["cif_value_free:2", "cif_value_clean:2", "cif_value_clone:2",
+           "__CPROVER_file_local_value_c_cif_list_value_clean:2", "__CPROVER_file_local_value_c_cif_table_value_clean:2",
+           "__CPROVER_file_local_value_c_cif_value_clone_list:2", "__CPROVER_file_local_value_c_cif_value_clone_table:2",
+           "cif_map_entry_free_internal:2", "cif_list_value_clean:2", "cif_table_value_clean:2", "cif_value_clone_list:2", "cif_value_clone_table:2"]
+
+
+def c19(tier):
+    qs = []
+    shapes = [(0, 0), (1, 4), (3, 4), (4, 4)] if tier == "quick" else [(0, 0), (0, 4), (1, 4), (2, 4), (3, 4), (4, 4), (5, 8), (8, 8), (12, 12)]
+    for (p, cap) in shapes:
+        for op in range(6):
+            for idx in range(p + 2):
+                mode = "safety" if (p <= 4 and (tier != "quick" or idx in (0, p))) else "func"
+                qs.append(Q("C19_list_P%d_C%d_op%d_i%d" % (p, cap, op, idx), "h19_list.c",
+                            defs={"LSZ": p, "LCAP": cap, "OPK": op, "OPIDX": idx}, extra=ICU_NORM_CHEAP,
+                            libtus=["map.c", "utils.c"], unwind=p + 4, unwindset=VAL_REC, mode=mode, replay_libs=ICU_LIBS,
+                            native_extra=["stubs/icu_norm_cheap.c"], object_bits=10, group="h19_list",
+                            bounds={"list state": "size %d, capacity %d, element texts symbolic" % (p, cap),
+                                    "operation": "%s at index %d" % (["insert", "set", "take", "drop", "self-set", "get"][op], idx)},
+                            note="one list operation from an arbitrary state of this shape vs array model (inductive step)"))
+    for shape in (0, 1, 2, 4, 5, 6):   # 3 (number) and 7 (table{a:list}) give no verdict in 240 s: not claimed
+        exist = [None] + ([4, 5] if tier != "quick" or shape in (0, 4) else [])
+        for ex, which in [(e, w) for e in exist for w in range(4)]:
+            d = {"SHAPE": shape, "WHICH": which}
+            if ex is not None:
+                d.update({"INTO_EXISTING": None, "EXISTING_SHAPE": ex})
+            qs.append(Q("C19_clone_S%d%s_w%d" % (shape, "" if ex is None else "_into%d" % ex, which), "h19_clone.c", defs=d, extra=ICU_NORM_CHEAP,
+                        libtus=["value.c", "map.c", "packet.c", "utils.c"], unwind=6,
+                        unwindset=[e.replace(":2", ":4") for e in VAL_REC] + ["memcmp.*:8"], mode="safety", replay_libs=ICU_LIBS,
+                        native_extra=["stubs/icu_norm_cheap.c"], object_bits=10, group="h19_clone", timeout=600 if tier != "quick" else None,
+                        bounds={"shape": ["char", "unknown", "n/a", "number", "list[char,n/a]", "table{a:char}", "list[list[char]]", "table{a:list[char]}"][shape],
+                                "contents": "texts of <= 2 units, quoted flag, digits symbolic", "target": "new object" if ex is None else "existing value of shape %d" % ex,
+                                "then": ["free original", "free clone", "re-init clone", "re-init original"][which]},
+                        note="clone: deep equality, no sharing, independence under release / re-initialisation, no leak"))
+    for pk in (0, 1):
+        for npre in ((2,) if tier == "quick" else (1, 2, 3)):
+            for op in range(6):
+                # read-only lookups keep a SYMBOLIC key; operations that change the container's shape use concrete keys
+                # (exact / case-variant / absent spellings, all enumerated): with a symbolic key the shape after the
+                # operation is symbolic and no back end finished in 240 s (measured)
+                ksels = [None] if op == 2 else list(range(6))
+                for ks in ksels:
+                    d = {"NPRE": npre, "OPK": op}
+                    if pk:
+                        d["PACKET"] = None
+                    if ks is not None:
+                        d["KSEL"] = ks
+                    qs.append(Q("C19_%s_N%d_op%d_k%s" % ("packet" if pk else "table", npre, op, "sym" if ks is None else ks), "h19_map.c",
+                                defs=d, extra=ICU_NORM_CHEAP, libtus=["value.c", "map.c", "packet.c", "utils.c"], unwind=npre + 4,
+                                unwindset=VAL_REC + ["memcmp.*:8"], mode="safety", replay_libs=ICU_LIBS,
+                                native_extra=["stubs/icu_norm_cheap.c"], object_bits=10, group="h19_map",
+                                bounds={"entries": "%d pre-inserted under concrete keys, symbolic values" % npre,
+                                        "operation": ["set", "set NULL", "get", "take", "drop", "self-set"][op],
+                                        "key": "symbolic" if ks is None else "concrete spelling #%d of a/A/B/b/c/z" % ks},
+                                note="%s contract vs map model" % ("packet" if pk else "table")))
+    return qs
+
+
+META["C19"] = {"files": ["value.c", "map.c", "packet.c", "utils.c"], "functions": ["cif_value_create", "cif_value_free", "cif_value_clean", "cif_value_clone",
+               "cif_value_copy_char", "cif_value_insert_element_at", "cif_value_set_element_at", "cif_value_remove_element_at", "cif_value_get_element_at",
+               "cif_value_get_element_count"],
+               "stubs": ["stubs/icu_str.c (exact)", "stubs/icu_norm_cheap.c", "stubs/uthash_model (list model of uthash)"],
+               "assumptions": ["malloc does not fail (C17 covers failures)", "element values are one-unit strings",
+                               "operation kinds, indices and (for shape-changing map operations) key spellings are concrete per instance and enumerated by the driver; values/texts are symbolic"],
+               "outside": ["sequences longer than one step from the enumerated shapes (covered by induction over operations, argued)",
+                           "uthash hashing/bucket growth", "clone of number values and of table-in-list nesting deeper than listed (no verdict within the cap)"]}
+
+REG = {"C20": c20, "C10": c10, "C18": c18, "C09": c09, "C08": c08, "C14": c14, "C19": c19}
 
 
 def for_property(pid, tier):
@@ -230,3 +299,12 @@ MANI["C14"] = {
             "also handle release on every path and result codes.",
     "note": "storage API below the walker replaced by a symbolic tree (<= 2 blocks x 1-2 frames x 1-2 loops x 2 packets x 2 items); "
             "permissive on end callbacks after SKIP answers (documentation silent); SKIP_SIBLINGS from end callbacks assumed away"}
+
+MANI["C19"] = {
+    "text": "Bounded model checking of the real value.c / map.c / packet.c: one list operation from every enumerated list state shape "
+            "(size x capacity incl. growth boundaries) x operation x index against an array model; table and packet operations against a "
+            "map model with the container's key equivalence; cif_value_clone over enumerated value-tree shapes with symbolic contents "
+            "(deep equality, no shared storage, independence under release / re-initialisation, no leak, CBMC memory checks).",
+    "note": "shapes, operation kinds, indices and shape-changing key spellings are concrete per query instance and enumerated "
+            "(a symbolic list index or key makes the heap shape symbolic and no back end finishes); element texts / values / lookup "
+            "keys are symbolic; uthash replaced by an API-compatible list model; ICU normalisation = identity + ASCII fold model"}
